@@ -1,0 +1,60 @@
+// Copyright contributors to the openqasm-parser project
+// SPDX-License-Identifier: Apache-2.0
+
+//! Verification hooks (cargo feature `oq3_verif`). Not part of the normal build.
+//!
+//! The parser counts look-aheads and pushed events since the last consumed token and
+//! panics when that count reaches [`IDLE_LIMIT`]: a stuck grammar loop becomes an immediate,
+//! attributable panic instead of an unbounded allocation. Per-thread totals are kept so a
+//! harness can check that the work done is linear in the number of tokens.
+
+use std::cell::Cell;
+
+/// Maximum number of look-aheads plus events allowed between two consumed tokens.
+pub const IDLE_LIMIT: u32 = 50_000;
+
+#[derive(Clone, Copy, Debug, Default, PartialEq, Eq)]
+pub struct Stats {
+    /// Calls of `current`, `nth`, `nth_at`.
+    pub lookaheads: u64,
+    /// Events pushed (including token events).
+    pub events: u64,
+    /// Token events, i.e. calls of `do_bump`.
+    pub bumps: u64,
+    /// Maximum of the idle counter.
+    pub max_idle: u32,
+}
+
+thread_local! {
+    static STATS: Cell<Stats> = const { Cell::new(Stats { lookaheads: 0, events: 0, bumps: 0, max_idle: 0 }) };
+}
+
+#[inline]
+pub(crate) fn record(is_event: bool, idle: u32) {
+    STATS.with(|s| {
+        let mut v = s.get();
+        if is_event {
+            v.events += 1;
+        } else {
+            v.lookaheads += 1;
+        }
+        if idle > v.max_idle {
+            v.max_idle = idle;
+        }
+        s.set(v);
+    });
+}
+
+#[inline]
+pub(crate) fn record_bump() {
+    STATS.with(|s| {
+        let mut v = s.get();
+        v.bumps += 1;
+        s.set(v);
+    });
+}
+
+/// Return the totals accumulated on this thread since the last call and reset them.
+pub fn take_stats() -> Stats {
+    STATS.with(|s| s.replace(Stats::default()))
+}
